@@ -94,6 +94,7 @@ class World:
         self.cache_pages = random.Random('%s:cache' % seed).choice([0, 0, 1, 2, 8])
         self.reentrant_every = random.Random('%s:reentrant' % seed).choice([0, 0, 0, 3, 7])
         self._in_read = False
+        self._in_vm = False
         self.reads = 0
         self.page_size = random.Random('%s:page' % seed).choice([0, 0, 512, 1024])
         self.recording = False
@@ -242,7 +243,8 @@ class World:
             return           # callbacks caused by the client's own re-entrant read
         c = self.counters
         c['cb'] += 1
-        if self.reentrant_every and c['cb'] % self.reentrant_every == 0:
+        if self.reentrant_every and c['cb'] % self.reentrant_every == 0 and not self._in_vm:
+            # (never from inside SQLite's VM progress callback: a statement is executing)
             self.reentrant_read()
         if self.recording:
             self.cb_log.append((kind, status))
@@ -353,7 +355,11 @@ class SimConnection(sqlite3.Connection):
                 f.vm_at = None
                 f.fired.append('F5-vm-interrupt')
                 raise SimFault('simulated failure in VM progress callback')
-            return handler(*a)
+            w._in_vm = True
+            try:
+                return handler(*a)
+            finally:
+                w._in_vm = False
         return super().set_progress_handler(wrapped, interval)
 
 
